@@ -39,7 +39,8 @@ Theorem C13_stored_under_own_key_reachable :
   forall lm lu sdk ops cn tn c t,
     run_env EK (UK lu) lm lu sdk [] ops ->
     lookup cn (fst (run lm lu sdk [] ops)) = Some c -> lookup tn (c_tables c) = Some t ->
-    TInv t /\ forall k it, lookup k (t_data t) = Some it -> get_key (t_ks t) (t_defs t) it = inr k.
+    TInv t /\ (forall k it, lookup k (t_data t) = Some it -> get_key (t_ks t) (t_defs t) it = inr k) /\
+    secondary (t_ks t) = false.
 Proof. exact KInv_reachable. Qed.
 
 (* the key map of a request and the item it names have the same key string *)
